@@ -1,0 +1,90 @@
+//! Verification instrumentation (only compiled with `--cfg recmo_uint_verif`).
+//!
+//! Coverage counters on rare branches and a deterministic step bound for loops
+//! whose termination is part of a checked property. Never enabled in normal
+//! builds.
+
+#![allow(missing_docs, clippy::missing_inline_in_public_items)]
+
+use core::sync::atomic::{AtomicU64, Ordering};
+
+macro_rules! counters {
+    ($($name:ident),* $(,)?) => {
+        #[allow(non_camel_case_types, clippy::upper_case_acronyms)]
+        #[derive(Clone, Copy, Debug, PartialEq, Eq)]
+        #[repr(usize)]
+        pub enum C { $($name),* }
+        pub const NAMES: &[&str] = &[$(stringify!($name)),*];
+    };
+}
+
+counters! {
+    DIV_ARM_ZERO_NUM, DIV_ARM_SHORT_NUM, DIV_ARM_1X1, DIV_ARM_NX1, DIV_ARM_NX2, DIV_ARM_NXM,
+    KNUTH_NORM_FORCED, KNUTH_NORM_ADDBACK,
+    KNUTH_FORCED_SHIFT0, KNUTH_FORCED_SHIFTED, KNUTH_ADDBACK_SHIFT0, KNUTH_ADDBACK_SHIFTED,
+    KNUTH_Q_ZERO, KNUTH_Q_HIGH_NONZERO,
+    DIV2X1_DEC, DIV2X1_INC, DIV3X2_DEC, DIV3X2_INC,
+    RECIP2_P_LT_D0, RECIP2_P_GE_D1, RECIP2_P_LT_T1, RECIP2_SECOND_DEC,
+    REDC_MUL_CARRY, REDC_SQ_OUTER1, REDC_SQ_OUTER2, REDC_SQ_CARRY_HI,
+    REDC_REDUCE_CARRY, REDC_REDUCE_NOBORROW, REDC_REDUCE_NONE,
+    LEHMER_ID_A1_SMALL, LEHMER_A2_SMALL_ACCEPT, LEHMER_A2_SMALL_REJECT,
+    LEHMER_EVEN_I, LEHMER_EVEN_I1, LEHMER_EVEN_I2, LEHMER_ODD_I, LEHMER_ODD_I1, LEHMER_ODD_I2,
+    GCD_FALLBACK, GCD_LEHMER_STEP, GCDEXT_FALLBACK, GCDEXT_LEHMER_STEP,
+    INVMOD_FALLBACK, INVMOD_LEHMER_STEP,
+    ROOT_ITER, ROOT_CAP_APPLIED, ROOT_DECREASING_STOP, LOG_DEC, LOG_INC,
+}
+
+const N: usize = NAMES.len();
+#[allow(clippy::declare_interior_mutable_const)]
+const Z: AtomicU64 = AtomicU64::new(0);
+static COUNTERS: [AtomicU64; N] = [Z; N];
+
+#[inline]
+pub fn hit(c: C) {
+    COUNTERS[c as usize].fetch_add(1, Ordering::Relaxed);
+}
+
+#[must_use]
+pub fn get(c: C) -> u64 {
+    COUNTERS[c as usize].load(Ordering::Relaxed)
+}
+
+pub fn reset() {
+    for c in &COUNTERS {
+        c.store(0, Ordering::Relaxed);
+    }
+}
+
+/// Maximum number of loop iterations per call site between two `reset_steps`.
+pub const STEP_BOUND: u64 = 1 << 22;
+
+#[cfg(feature = "std")]
+std::thread_local! {
+    static STEPS: core::cell::Cell<u64> = const { core::cell::Cell::new(0) };
+}
+
+/// Count one loop iteration; panics when the bound is exceeded.
+#[cfg(feature = "std")]
+#[inline]
+pub fn step(site: &'static str) {
+    STEPS.with(|s| {
+        let n = s.get() + 1;
+        s.set(n);
+        if n > STEP_BOUND {
+            s.set(0);
+            panic!("recmo_uint_verif: step bound exceeded in {site}");
+        }
+    });
+}
+
+#[cfg(not(feature = "std"))]
+#[inline]
+pub fn step(_site: &'static str) {}
+
+#[cfg(feature = "std")]
+pub fn reset_steps() {
+    STEPS.with(|s| s.set(0));
+}
+
+#[cfg(not(feature = "std"))]
+pub fn reset_steps() {}
